@@ -234,6 +234,69 @@ func c19FSReplay(i int, raw json.RawMessage) Result {
 			}
 		}
 	}
+	// a directory-rooted loader reports the regular files of its tree as it is NOW: one loader instance over a
+	// private copy of the tree, queried, then the tree changes under it (file removed / replaced by a directory /
+	// written again)
+	if len(v.Stack) == 1 {
+		t := v.Stack[0]
+		for _, kind := range []string{"os", "http"} {
+			dir, err := os.MkdirTemp(c19Root, "dyn-")
+			if err != nil {
+				return Result{Detail: "harness: " + err.Error()}
+			}
+			files := []string{}
+			for _, e := range [][2]string{{"a", t.A}, {"b", t.B}, {"a/a", t.AA}, {"a/b", t.AB}} {
+				switch e[1] {
+				case "dir":
+					os.MkdirAll(filepath.Join(dir, e[0]), 0o755)
+				case "file":
+					os.WriteFile(filepath.Join(dir, e[0]), []byte("v1:"+e[0]), 0o644)
+					files = append(files, e[0])
+				}
+			}
+			var l jet.Loader = jet.NewOSFileSystemLoader(dir)
+			if kind == "http" {
+				hl, err := httpfs.NewLoader(http.Dir(dir))
+				if err != nil {
+					return Result{Detail: "harness: " + err.Error()}
+				}
+				l = hl
+			}
+			sig := map[string]interface{}{"loader": kind, "shape": "single-changing-tree", "query_is_dir_somewhere": false}
+			step := func(what, rel string, wantExists bool, wantContent string) *Result {
+				ex := l.Exists("/" + rel)
+				got := ""
+				if ex {
+					got, _ = readAllLoader(l, "/"+rel)
+				}
+				if ex != wantExists || (ex && got != wantContent) {
+					return &Result{Sig: sig, Key: key, Observed: map[string]interface{}{"exists": ex, "content": got}, Expected: map[string]interface{}{"exists": wantExists, "content": wantContent},
+						Detail: fmt.Sprintf("[%s] %s: Exists(/%s) = %v, content %q; the tree now has exists=%v content %q", kind, what, rel, ex, got, wantExists, wantContent)}
+				}
+				return nil
+			}
+			for _, f := range files {
+				full := filepath.Join(dir, f)
+				if r := step("initially", f, true, "v1:"+f); r != nil {
+					return *r
+				}
+				os.Remove(full)
+				if r := step("after the file was removed", f, false, ""); r != nil {
+					return *r
+				}
+				os.Mkdir(full, 0o755)
+				if r := step("after a directory took its place", f, false, ""); r != nil {
+					return *r
+				}
+				os.Remove(full)
+				os.WriteFile(full, []byte("v2:"+f), 0o644)
+				if r := step("after it was written again", f, true, "v2:"+f); r != nil {
+					return *r
+				}
+			}
+			os.RemoveAll(dir)
+		}
+	}
 	return Result{OK: true, Key: key}
 }
 
